@@ -281,12 +281,16 @@ fn lex_line(text: &str, file: &str, line: u32, col0: u32) -> Result<Vec<Tok>, St
 /// Replace comments by spaces without moving any other byte, so that lines and byte columns stay
 /// what they are in the file. Returns the masked text and, if a block comment never ends, the
 /// 1-based line it starts on.
-fn mask_comments(text: &str) -> (String, Option<u32>) {
+fn mask_comments(text: &str) -> (String, Option<u32>, Option<u32>) {
     let b = text.as_bytes();
     let mut out: Vec<u8> = Vec::with_capacity(b.len());
     let mut i = 0;
     let mut line = 1u32;
     let mut unterminated = None;
+    // the first line on which a comment that began on an earlier line is followed by more text:
+    // that text belongs to the logical line the comment began on (a line end inside a comment is
+    // no line end), which the line-by-line reading below does not reproduce
+    let mut joined: Option<u32> = None;
     while i < b.len() {
         let c = b[i];
         if c == b'\n' {
@@ -331,6 +335,12 @@ fn mask_comments(text: &str) -> (String, Option<u32>) {
             }
             if !closed {
                 unterminated = Some(start_line);
+            } else if line != start_line && joined.is_none() {
+                let rest = &b[end..];
+                let stop = rest.iter().position(|x| *x == b'\n').unwrap_or(rest.len());
+                if rest[..stop].iter().any(|x| !matches!(x, b' ' | b'\t' | b'\r')) {
+                    joined = Some(line);
+                }
             }
             i = end;
         } else {
@@ -338,7 +348,7 @@ fn mask_comments(text: &str) -> (String, Option<u32>) {
             i += 1;
         }
     }
-    (String::from_utf8(out).unwrap_or_default(), unterminated)
+    (String::from_utf8(out).unwrap_or_default(), unterminated, joined)
 }
 
 const LINE_BREAK: Atom = Atom::Punct('\n');
@@ -810,7 +820,7 @@ impl State<'_> {
         if contents.starts_with('\u{feff}') {
             return Err(Stop::Unmodelled("byte order mark".into()));
         }
-        let (masked, unterminated) = mask_comments(contents);
+        let (masked, unterminated, joined) = mask_comments(contents);
         if !masked.is_ascii() {
             return Err(Stop::Unmodelled("non-ASCII character outside a comment".into()));
         }
@@ -839,6 +849,11 @@ impl State<'_> {
                     at: Some((real.to_string(), eof_line)),
                     starts_at: Some(line_no),
                 }));
+            }
+            if joined == Some(line_no) {
+                return Err(Stop::Unmodelled(
+                    "text after a comment that began on an earlier line".into(),
+                ));
             }
             self.steps += 1;
             if self.steps > STEP_BUDGET {
